@@ -668,8 +668,6 @@ def check_handed_function(ctx):
         for obj in ("quad", "quad-args", "rosen"):
             for method in (ctx.rng.choice([m for m in gm if m not in NEED_HESS and m not in ("TNC", "SLSQP")]), ctx.rng.choice(GRAD_FREE)):
                 p = gen_problem(ctx.rng, kind, obj, small=True)
-                if "c" in kind and p.get("args"):
-                    continue                        # known finding (complex x0 with args), reported by check_differential
                 fg, _ = np_objective(p)
                 args = tuple(p.get("args", ()))
                 opts = {"maxiter": 2}
